@@ -157,7 +157,43 @@ def _dtls():
     return build
 
 
+PC_COMPONENTS = {
+    "RTCPeerConnection, sdp, RTCRtpTransceiver, codec negotiation": "real",
+    "RTCDtlsTransport (OpenSSL DTLS, libsrtp), RTCSctpTransport, RTCDataChannel": "real",
+    "RTCRtpSender / RTCRtpReceiver (packetisers, RTCP tasks)": "real",
+    "codecs (libvpx/x264/opus)": "not run: packet tracks feed the packetisers, the decoder seam counts frames",
+    "ICE (aioice)": "stub (SimIceConnection on SimNet; gathering, candidate exchange, credentials and close semantics mirrored)",
+    "signalling channel": "simulated (seeded delay)",
+    "asyncio loop, clock, RNG, network": "simulated",
+}
+PC_ASSUME = [
+    "DTLS handshake datagrams are delayed but never lost (OpenSSL's retransmission timer reads the real clock)",
+    "ICE connectivity checks are not simulated: a pair connects when credentials match and a candidate was signalled",
+    "sampling, not enumeration: a clean batch is evidence, not proof",
+]
+RULE_C03 = ("each evaluation is one simulated pair of peer connections drawn from the product space (offerer: 0-3 media items x "
+            "kind x direction x addTrack/addTransceiver(kind)/addTransceiver(track), data channel before/after media, codec preference "
+            "lists with/without RTX, bundle policy; answerer: pre-created items, data channel, bundle policy) plus 0-2 follow-up "
+            "negotiations that add media or a data channel from either side; offer/answer texts are judged by an independent SDP "
+            "reader, then the session must connect and every data channel must carry a message each way; non-trivial = >=1 completed "
+            "negotiation; distinct = distinct event-log digests")
+
+
+def _pc(run_name, rule, level="exploration", quick_s=45, thorough_s=600, probes=(), measure=""):
+    def build():
+        from ..engines import pc_sim
+        return {
+            "fn": getattr(pc_sim, run_name), "spec": {}, "level": level, "quick_s": quick_s, "thorough_s": thorough_s,
+            "rule": rule, "components": PC_COMPONENTS, "state_measure": measure, "assumptions": PC_ASSUME,
+            "probes_expected": list(probes),
+        }
+    return build
+
+
 REGISTRY = {
+    "C03": _pc("run_c03", RULE_C03, probes=["negotiations_completed", "connected", "data_channels_verified", "renegotiations",
+                                            "offering_side_swapped"],
+               measure="configuration classes (bundle policies x item counts x data channels) counted under `configurations`"),
     "C04": _dtls(),
     "C11": _media(),
     "C17": _diff(),
